@@ -38,6 +38,9 @@ type c10Scenario struct {
 	// the completion channel buffers, explored under the canonical schedule and its one-deviation neighbours only)
 	MaxBound int  `json:"maxbound,omitempty"`
 	Canon    bool `json:"canon,omitempty"` // canonical schedule only
+	// InFlightHB: heartbeat timers are on and a Heartbeat Request from peer 0 travels together with the triggers (for a
+	// heartbeat failure: at the moment the agent gives up), so that it is handled while the association is being torn down
+	InFlightHB bool `json:"inflighthb,omitempty"`
 }
 
 const c10N4 = "10.0.0.1"
@@ -101,7 +104,13 @@ func c10Run(sc c10Scenario, prefix []int, sigs []string) (*vsched.Sched, schedVe
 			rt = 15 * time.Second
 		}
 	}
+	if sc.InFlightHB {
+		hb = true
+	}
 	var doneRet, stopAsked bool
+	var stray *vnet.Peer
+	var strayConn *vConn
+	var strayOK, strayTried bool
 	var prologueErr string
 	var reassocOK, reassocTried bool
 	var seids []uint64
@@ -151,6 +160,11 @@ func c10Run(sc c10Scenario, prefix []int, sigs []string) (*vsched.Sched, schedVe
 			switch kind {
 			case "release":
 				w.peers[idx].Send(c10N4+":8805", (&sReq{Kind: kRel, Seq: 50}).build(conns[idx]).marshal())
+			case "strayrelease":
+				// an Association Release Request as the very first datagram from an address the agent does not know
+				stray = fab.Peer("10.0.1.200:8805")
+				strayConn = &vConn{node: "10.0.1.200", seq: 1}
+				stray.Send(c10N4+":8805", (&sReq{Kind: kRel, Seq: 50}).build(strayConn).marshal())
 			case "readtimeout":
 				horizon = 40 * time.Second
 			case "hbfail":
@@ -183,8 +197,35 @@ func c10Run(sc c10Scenario, prefix []int, sigs []string) (*vsched.Sched, schedVe
 		if sc.InFlight && sc.NAssoc > 0 {
 			w.peers[0].Send(c10N4+":8805", c10Est(conns[0], 0x99, 9))
 		}
+		if sc.InFlightHB && sc.NAssoc > 0 {
+			at := time.Duration(0)
+			for _, t := range sc.Triggers {
+				if strings.HasPrefix(t, "hbfail") {
+					at = 9 * time.Second // hb_interval + 2 x resp_timeout: the moment the agent gives up
+				}
+			}
+			vsched.Go("harness.peer-hb", func() {
+				if at > 0 {
+					vtime.Sleep(at)
+				}
+				w.peers[0].Send(c10N4+":8805", (&sReq{Kind: kHB, Seq: 70}).build(conns[0]).marshal())
+			})
+		}
 		vtime.Sleep(horizon)
 		vsched.Quiesce("settle")
+		if stray != nil && !stopAsked {
+			// the same address now associates properly
+			strayTried = true
+			s.NoClockDeviation = true
+			n0 := len(stray.Inbox)
+			stray.Send(c10N4+":8805", (&sReq{Kind: kAssoc, Seq: 60}).build(strayConn).marshal())
+			vsched.Quiesce("stray-assoc")
+			for _, b := range stray.Inbox[n0:] {
+				if d, err := vDecode(b); err == nil && d.Type == message.MsgTypeAssociationSetupResponse && d.Seq == 60 && d.Cause == ie.CauseRequestAccepted {
+					strayOK = true
+				}
+			}
+		}
 		if sc.Reassoc && sc.NAssoc > 0 && !stopAsked {
 			reassocTried = true
 			n0 := len(w.peers[0].Inbox)
@@ -320,11 +361,20 @@ func c10Run(sc c10Scenario, prefix []int, sigs []string) (*vsched.Sched, schedVe
 		w.node.pConns.Range(func(k, val any) bool {
 			for i := 0; i < sc.NAssoc; i++ {
 				if ended[i] && k.(string) == c10PeerAddr(i) && !(reassocTried && i == 0) {
+					// a Heartbeat Request that arrives after the teardown legitimately creates a fresh, unassociated
+					// PFCPConn for the address (C12: answered before or after association): only an entry that still
+					// carries the old association is a failure
+					if pc, ok := val.(*PFCPConn); ok && sc.InFlightHB && i == 0 && pc.nodeID.remote == "" && len(pc.store.GetAllSessions()) == 0 {
+						continue
+					}
 					bad = append(bad, "ended-association-not-forgotten")
 				}
 			}
 			return true
 		})
+		if strayTried && !strayOK {
+			bad = append(bad, "stray-release-blocks-association")
+		}
 		if reassocTried && !reassocOK {
 			bad = append(bad, "re-association-fails")
 		}
@@ -394,6 +444,19 @@ func c10Scenarios() []c10Scenario {
 	add(2, 1, false, false, "release@1", "readtimeout@0")
 	add(2, 0, false, false, "stop")
 	add(2, 1, true, false, "release@1")
+	// an Association Release Request as the first datagram from an unknown address, then that address associates / the agent stops
+	add(0, 0, false, false, "strayrelease")
+	add(0, 0, false, false, "strayrelease", "stop")
+	add(1, 1, false, false, "strayrelease", "stop")
+	// a Heartbeat Request of the peer handled while its association is being torn down
+	for _, trig := range [][]string{{"stop"}, {"hbfail@0"}, {"release@0"}, {"readtimeout@0"}} {
+		add(1, 1, false, false, trig...)
+		out[len(out)-1].InFlightHB = true
+		out[len(out)-1].Name += "+inflight-hb"
+	}
+	add(2, 1, false, false, "stop")
+	out[len(out)-1].InFlightHB = true
+	out[len(out)-1].Name += "+inflight-hb"
 	// "with any number of live associations": more than the node's completion channel buffers (100)
 	for _, n := range []int{101, 130} {
 		add(n, 0, false, false, "stop")
